@@ -417,7 +417,29 @@ func (r *mrun) wellFormed(via int, proc string, data []byte, nBefore int) string
 	if willBan {
 		timeout = 300 * time.Millisecond
 	}
-	got := answered(ch, timeout)
+	got := false
+	if !pen && kind == "" {
+		// no penalty is due: watch the stored score while waiting (a false ban closes the connections and may be over
+		// and swept before the timeout)
+		bad := -1
+		waitFor(timeout, func() bool {
+			select {
+			case <-ch:
+				got = true
+			default:
+			}
+			if sc, _, ok := V.conn.VerifPeerScore(r.mp.ip); ok && sc != prev {
+				bad = sc
+			}
+			return got || bad >= 0
+		})
+		if bad >= 0 {
+			return fmt.Sprintf("well-formed %s request of the peer over connection %d, within the limits, was penalised: %s stored score %d for %s (model %d) %.3fs after it was sent; answered=%v, connections left %d of %d",
+				proc, via, r.name(0), bad, r.mp.ip, prev, time.Since(t0).Seconds(), got, r.nconns(), nBefore)
+		}
+	} else {
+		got = answered(ch, timeout)
+	}
 	if pen {
 		cause := "rate-limit(" + proc + ")"
 		r.res.labels["rate-penalty"] = true
